@@ -1,5 +1,5 @@
 From Coq Require Import Reals ZArith List String Bool.
-From OV Require Import Ops RInst XR Model.M_C13 Spec.S_C13 Lemmas.L_C13.
+From OV Require Import Ops RInst XR Gen.C13Kern Model.M_C13 Spec.S_C13 Lemmas.L_C13 Lemmas.L_C13_wavefront.
 Local Open Scope R_scope.
 Import ListNotations.
 
@@ -195,3 +195,21 @@ Theorem C13_newton_batch_tolerance_partial :
 Proof. exact newton_batch_tolerance_partial. Qed.
 Print Assumptions C13_newton_batch_tolerance_partial.
 
+
+Theorem C13_wf_opd_image_to_xp_on_sphere :
+  forall (xc yc zc R x y z L M N : R),
+    let a := L * L + M * M + N * N in
+    let b := 2 * - L * (x - xc) + 2 * - M * (y - yc) + 2 * - N * (z - zc) in
+    let c := (x - xc) * (x - xc) + (y - yc) * (y - yc) + (z - zc) * (z - zc) - R * R in
+    a <> 0 -> 0 <= b * b - 4 * a * c ->
+    let t := k_wf_opd_image_to_xp ROps xc yc zc R x y z L M N in
+    (x - t * L - xc) * (x - t * L - xc) + (y - t * M - yc) * (y - t * M - yc) +
+    (z - t * N - zc) * (z - t * N - zc) = R * R.
+Proof. exact wf_opd_image_to_xp_on_sphere. Qed.
+Print Assumptions C13_wf_opd_image_to_xp_on_sphere.
+
+Theorem C13_wf_path_length_reads_only_the_ray :
+  forall (xc yc zc r opd x y z L M N : R),
+    k_wf_path_length ROps xc yc zc r opd x y z L M N = opd - k_wf_opd_image_to_xp ROps xc yc zc r x y z L M N.
+Proof. exact wf_path_length_reads_only_the_ray. Qed.
+Print Assumptions C13_wf_path_length_reads_only_the_ray.
